@@ -152,6 +152,14 @@ def run_plain(rep, tier):
         "array([1, 2], dtype=float)": lambda np_: np_.array([1, 2], dtype=float),
         "array(A, ndmin=3)": lambda np_: np_.array(A, ndmin=3),
         "array([[1.0, v[0]], [v[1], 2.0]])": lambda np_: np_.array([[1.0, v[0]], [v[1], 2.0]]),
+        "array([1., 2., 3.], ndmin=2)": lambda np_: np_.array([1.0, 2.0, 3.0], ndmin=2),
+        "array([v, v], ndmin=3)": lambda np_: np_.array([v, v], ndmin=3),
+        "array([[1, 2], [3, 4]], dtype=float, ndmin=3)": lambda np_: np_.array([[1, 2], [3, 4]], dtype=float, ndmin=3),
+        "array((v[0], 2.0), dtype=float32)": lambda np_: np_.array((v[0], 2.0), dtype=onp.float32),
+        "array([A, A], copy=True)": lambda np_: np_.array([A, A], copy=True),
+        "append(A, A, axis=0)": lambda np_: np_.append(A, A, axis=0),
+        "append(A, A, axis=1)": lambda np_: np_.append(A, A, axis=1),
+        "append(A, v)": lambda np_: np_.append(A, v),
         "append(v, 4.0)": lambda np_: np_.append(v, 4.0),
         "append(A, A, axis=0)": lambda np_: np_.append(A, A, axis=0),
         "c_[v, v]": lambda np_: np_.c_[v, v],
